@@ -29,10 +29,23 @@ fn rt_case(r: &mut Rng, thorough: bool, index: u64) -> String {
     let depth = if thorough { r.below(9) as u32 } else { r.below(5) as u32 };
     let (obj, path) = if index == 0 {
         (InMemDicomObject::read_dataset_with_ts(WITNESS_PIXEL_THEN_ITEM, ts_of(1)).unwrap(), "B")
+    } else if index == 1 {
+        // fixed witness: 8-bit samples held as bytes under OW, Explicit VR Big Endian
+        let el = Node::El {
+            tag: dicom_core::Tag(0x7FE0, 0x0010),
+            vr: dicom_core::VR::OW,
+            len: 4,
+            val: dicom_core::PrimitiveValue::U8([1u8, 2, 3, 4].as_ref().into()),
+        };
+        (to_object(&[el]), "A")
     } else {
         case_object(r, ts_k, depth)
     };
-    let ts_k = if index == 0 { 1 } else { ts_k };
+    let ts_k = match index {
+        0 => 1,
+        1 => 2,
+        _ => ts_k,
+    };
     let nodes = from_object(&obj);
     let w = write_all_ways(&obj, ts_k);
     let calls = ["default", "set-undefined", "no-change"];
